@@ -340,11 +340,8 @@ macro_rules! chain_impl {
 
             fn run_decode(data: &[$W], models: &[Letter], compressed: bool) -> Option<Vec<Option<u8>>> {
                 let mut c = load(data, compressed)?;
-                let mut dead = false;
-                Some(models.iter().map(|&l| {
-                    if dead { return None; }
-                    match dec(&mut c, l) { Ok(k) => Some(k), Err(()) => { dead = true; None } }
-                }).collect())
+                // decoding goes on after the first out-of-data error: the error must persist
+                Some(models.iter().map(|&l| dec(&mut c, l).ok()).collect())
             }
 
             /// C14 for one (data, models), `from_binary` loading (head initialisation is data independent)
@@ -352,6 +349,12 @@ macro_rules! chain_impl {
                 let Some(base) = run_decode(data, models, false) else { st.out_of_data += 1; return; };
                 st.cases += 1;
                 let count = models.len();
+                if let Some(first_none) = base.iter().position(|x| x.is_none()) {
+                    if base[first_none..].iter().any(|x| x.is_some()) {
+                        st.bad.push(("ChainCoder::decode_symbol | a symbol is decoded after the coder has reported that it ran out of compressed data".into(),
+                            format!("{NAME}: data {:x?} models {:?}: decoded {:?}", data, models, base)));
+                    }
+                }
                 let chunks = ref_chunks(data.len(), WBITS, $P, init_words_binary(), count);
                 // O1
                 for i in 0..count {
